@@ -33,6 +33,8 @@ type Gen struct {
 	uses        map[string]map[string]bool // caller contract -> callee contracts used
 	keywordSet  []string
 	ninfo       map[string]*nodeInfo
+	sinfo       map[string]*structInfo
+	positions   bool // ghost positions enabled
 	repo        string
 }
 
@@ -79,6 +81,7 @@ func Load(repo string) (*Gen, error) {
 		g.funcs[g.funcName(fn)] = fn
 	}
 	g.loadKeywords()
+	g.positions = os.Getenv("VERIF_NOPOS") == ""
 	// instantiate schemas / merge inherited clauses for every function of the module
 	for name, fn := range g.funcs {
 		if fn.Pkg != nil && strings.HasPrefix(fn.Pkg.Pkg.Path(), modPath) {
@@ -467,6 +470,10 @@ func (fx *fnExec) checkPost(e *Exit) {
 		if label == "" {
 			label = fmt.Sprint(k)
 		}
+		if reason, skip := fx.g.cs.Unproved[c.Func][label]; skip {
+			s.Assumed = appendUnique(s.Assumed, fmt.Sprintf("%s/post:%s is assumed by callers but not proved (%s)", c.Func, label, reason))
+			continue
+		}
 		s.oblig("post", label+suffix, c.tagsFor(en), final.reach, fx.evalBool(en.E, env), fx.posOf(e.Pos), en.Src)
 	}
 }
@@ -504,4 +511,13 @@ func (g *Gen) satisfiesSchema(c *Contract, schema string) bool {
 		return c.FromSchema == "parser" || c.FromSchema == "recovering" || c.FromSchema == "parsernp"
 	}
 	return false
+}
+
+func appendUnique(xs []string, x string) []string {
+	for _, y := range xs {
+		if y == x {
+			return xs
+		}
+	}
+	return append(xs, x)
 }
